@@ -1,5 +1,7 @@
 from asyncio import (
+    AbstractEventLoop,
     Lock,
+    get_running_loop,
     iscoroutinefunction,
     sleep,
 )
@@ -9,6 +11,7 @@ from datetime import timedelta
 from inspect import markcoroutinefunction
 from time import monotonic
 from typing import cast, overload
+from weakref import WeakKeyDictionary
 
 from haiway.utils.mimic import mimic_function
 
@@ -99,7 +102,8 @@ class _AsyncThrottle[**Args, Result]:
     ) -> None:
         self._function: Callable[Args, Coroutine[None, None, Result]] = function
         self._entries: deque[float] = deque()
-        self._lock: Lock = Lock()
+        # asyncio locks are bound to the event loop, each loop using the function needs its own
+        self._locks: WeakKeyDictionary[AbstractEventLoop, Lock] = WeakKeyDictionary()
         self._limit: int = limit
         self._period: float
         match period:
@@ -121,7 +125,13 @@ class _AsyncThrottle[**Args, Result]:
         *args: Args.args,
         **kwargs: Args.kwargs,
     ) -> Result:
-        async with self._lock:
+        loop: AbstractEventLoop = get_running_loop()
+        lock: Lock | None = self._locks.get(loop)
+        if lock is None:
+            lock = Lock()
+            self._locks[loop] = lock
+
+        async with lock:
             time_now: float = monotonic()
             while self._entries:  # cleanup old entries
                 if self._entries[0] + self._period <= time_now:
